@@ -734,19 +734,16 @@ Qed.
 
 (* ================================================================== 8. Base/Agent.v in the machine *)
 Theorem agent_interface_is_weak_agent op s :
-  ag_pre op s ->
+  ag_pre op s -> ag_wf s ->
+  ag (ag_step op s) = ag_fun op (ag s) /\
   wa_replay (ag_kinds op s) (ag_abs s) = Some (ag_abs (ag_step op s)) /\
+  ag_wf (ag_step op s) /\
   (ag_w2 s -> ag_w2 (ag_step op s)).
 Proof.
-  destruct s as [[tk bl] r o]. unfold ag_pre, ag_w2, ag_abs, ag_step, ag_kinds, a_suspend, a_resume, a_phase_end.
+  destruct s as [[tk bl] r o].
+  unfold ag_pre, ag_wf, ag_w2, ag_abs, ag_step, ag_kinds, ag_fun, a_suspend, a_resume, a_phase_end.
   cbn [ag greg gowed tok blocked].
-  destruct op; cbn; intros Hp; try subst bl.
-  - split; [reflexivity | auto].
-  - destruct tk; cbn; (split; [reflexivity|]); intros H Ho; try discriminate Ho.
-    destruct (H Ho) as [_ E]. discriminate E.
-  - destruct bl; cbn; (split; [reflexivity|]); intros H Ho; try discriminate Ho. auto.
-  - destruct bl; cbn; (split; [reflexivity|]); intros H Ho; try discriminate Ho. auto.
-  - split; [reflexivity|]. intros _ Ho. discriminate Ho.
+  destruct op, bl, tk; cbn; intros Hp Hwf; intuition congruence.
 Qed.
 
 (* the shapes in which the models write these operations *)
@@ -761,12 +758,14 @@ Theorem agent_runs_weak_agent ops s ks :
   ~ (blocked (ag s) = true /\ gowed s = true) /\ ~ lost_pattern ks.
 Proof.
   intros H.
-  assert (G : forall ops s0 s ks, ag_runs ops s0 s ks ->
+  assert (G : forall ops s0 s ks, ag_runs ops s0 s ks -> ag_wf s0 ->
             wa_replay ks (ag_abs s0) = Some (ag_abs s) /\ (ag_w2 s0 -> ag_w2 s)).
-  { clear. induction 1 as [s|op ops s s' ks Hp _ [IH1 IH2]]; [split; [reflexivity | auto]|].
-    destruct (agent_interface_is_weak_agent op s Hp) as [A1 A2].
+  { clear. induction 1 as [s|op ops s s' ks Hp _ IH]; intros Hwf; [split; [reflexivity | auto]|].
+    destruct (agent_interface_is_weak_agent op s Hp Hwf) as (_ & A1 & A2 & A3).
+    destruct (IH A2) as [IH1 IH2].
     split; [rewrite wa_replay_app, A1; exact IH1 | auto]. }
-  destruct (G _ _ _ _ H) as [G1 G2]. change (ag_abs ag_init) with wa_init_task in G1.
+  destruct (G _ _ _ _ H) as [G1 G2]; [intros E; discriminate E|].
+  change (ag_abs ag_init) with wa_init_task in G1.
   assert (W : ag_w2 s) by (apply G2; intros E; discriminate E).
   assert (NB : ~ (blocked (ag s) = true /\ gowed s = true)).
   { intros [B O]. destruct (W O) as [B' _]. congruence. }
@@ -788,6 +787,12 @@ Proof.
   intros c. split; [apply sched_refines_weak_agent|].
   intros a o. apply step_sim. apply SimInv_reach.
 Qed.
+
+(* per incarnation: its projected event sequence replays in the machine from the initial state
+   to the abstraction of its current state *)
+Theorem sched_incarnation_replay sched ext i :
+  wa_replay (wa_proj i (sched_trace sched ext)) wa_init_task = Some (wa_abs (fst (sched_run sched ext)) i).
+Proof. exact (wa_run_proj _ _ _ (sched_refines_weak_agent sched ext) i). Qed.
 
 Theorem sched_no_lost_resume sched ext w :
   ext w = None -> let c := sched_run sched ext in stuck c ->
